@@ -735,4 +735,7 @@ def run(ck):
     ck.rule('C13.h', 'the variable-length prefix is read like the fixed-width ones: through the exact-count reader, octet used only after the read succeeded (C14.h re-evaluated) - consecutive frames decode in order however the source fragments its reads')
     reevaluate(ck, 'C13.h', 'c14', lambda r, k: r == 'C14.h',
                'the varint prefix of a frame is taken from the source whole, whatever the driver answers in between')
+    ck.rule('C13.i', 'the buffer entry points pair data + used with byte_buffer_avail (room to write) and data + offset with byte_buffer_rest (octets to read), and commit with byte_buffer_add / consume: those accessors and mutators mean what C18.b-d decide (re-evaluated) - a decoded frame is refused with -ENOMEM instead of being written past the destination')
+    reevaluate(ck, 'C13.i', 'c18', lambda r, k: r in ('C18.b', 'C18.c', 'C18.d'),
+               'flenp_buffer_* read and write a ByteBuffer through its accessors: room, window and cursor updates as the buffer invariant defines them')
 
